@@ -56,6 +56,9 @@ var c17Fragments = []struct {
 	{16, "local y16# = 1\nlocal x16# = y16# and false\nprint(x16#)\n"},
 	{17, "local w17# = 1\nw17# = 2\n"},
 	{18, "---@type NoSuchClass#\nlocal v18# = nil\nprint(v18#)\n"},
+	{18, "---@class\nlocal k18# = {}\nprint(k18#)\n"},                          // malformed annotation line: syntax kind of type 18
+	{18, "---@type fun(\nlocal e18# = 1\nprint(e18#)\n"},                       // malformed annotation line
+	{18, "---@class Dup18#\n---@class Dup18#\nlocal d18# = {}\nprint(d18#)\n"}, // duplicate annotation type
 	{19, "local y19# = 1\nif y19# then elseif y19# then end\n"},
 	{20, "local y20# = 1\ny20# = y20#\nprint(y20#)\n"},
 	{21, "local y21# = 1\nlocal x21# = y21# == 1.5\nprint(x21#)\n"},
